@@ -345,7 +345,7 @@ double cmi_random_nor_not_hot(int64_t i_cand_x)
     /* Alias sample to find out which overhang area */
     int64_t i_cand_y = zig_sample63();
     uint8_t jdx = i_cand_y & 0xff;
-    jdx = (i_cand_x >= nor_zig_i_prob[jdx]) ? nor_zig_alias[jdx] : jdx;
+    jdx = (zig_sample63() >= nor_zig_i_prob[jdx]) ? nor_zig_alias[jdx] : jdx;
     if (jdx > nor_zig_inflection) {
         /* Convex overhang */
         for (;;) {
